@@ -1,6 +1,7 @@
 (** C08 -- rock-type edits preserve the invariant. *)
 From Coq Require Import Ascii String List Bool PArith NArith FMapPositive Permutation Lia.
 From PTBase Require Import Exn PyStr.
+From Gen Require Import GenFlags.
 From P Require Import Assoc GridEdit GridLemmas Inv.
 Import ListNotations.
 Open Scope list_scope.
@@ -19,6 +20,20 @@ Proof.
   - intros i H. apply (i_cfresh g I) in H. lia.
 Qed.
 
+(** the repaired add_rocktype hands the blocks of the replaced rock type to the new one, which carries the same, registered name *)
+Lemma inv_relink g old j : Inv g -> rn g j = rn g old -> In (rn g j) (map fst (rdict g)) -> (j < next g)%positive ->
+  Inv (relink g old j).
+Proof.
+  intros I En Hr Hlt. constructor; try apply I.
+  - intros i Hi. change (In (rn g (br (relink g old j) i)) (map fst (rdict g))). rewrite br_relink.
+    destruct (mem i (blist g) && Pos.eqb (br g i) old); [exact Hr|apply (i_rock g I); exact Hi].
+  - intros i Hi. change (br (relink g old j) i < next g)%positive. rewrite br_relink.
+    destruct (mem i (blist g) && Pos.eqb (br g i) old); [exact Hlt|apply (i_brfresh g I); exact Hi].
+Qed.
+Lemma inv_relink_if g old j : Inv g -> rn g j = rn g old -> In (rn g j) (map fst (rdict g)) -> (j < next g)%positive ->
+  Inv (relink_if g old j).
+Proof. intros. unfold relink_if. destruct (add_rocktype_relinks && negb (Pos.eqb old j)); [apply inv_relink; assumption|assumption]. Qed.
+
 (** [add_rocktype(rt)] for an object that is not yet in the list: no precondition *)
 Lemma add_rocktype_obj_inv g j g' : Inv g -> ~ In j (rlist g) -> (j < next g)%positive ->
   add_rocktype_obj g j = Ok g' -> Inv g'.
@@ -26,6 +41,8 @@ Proof.
   intros I Hj Hlt H. unfold add_rocktype_obj, rget in H.
   destruct (aget str_eqb (rdict g) (rn g j)) as [old|] eqn:E.
   - destruct (mem old (rlist g)); [|discriminate]. inversion H; subst g'; clear H.
+    apply inv_relink_if; [|symmetry; exact (proj2 (DL_aget str_eqb str_spec _ _ _ _ _ (i_r g I) E))
+                          |gs; apply (in_keys_aset str_eqb str_spec); left; reflexivity|exact Hlt].
     constructor; try apply I; gs.
     + apply (DL_add_replace str_eqb str_spec); auto. apply I.
     + intros i Hi. apply (in_keys_aset str_eqb str_spec). right. apply (i_rock g I). exact Hi.
@@ -52,18 +69,33 @@ Theorem delete_rocktype_inv g n g' : Inv g -> rock_not_used g n -> delete_rockty
 Proof.
   intros I U H. unfold delete_rocktype, rget in H.
   destruct (aget str_eqb (rdict g) n) as [j|] eqn:E; [|inversion H; subst; exact I].
-  destruct (mem j (rlist g)); [|discriminate]. inversion H; subst g'; clear H.
+  norefuse H. destruct (mem j (rlist g)); [|discriminate]. inversion H; subst g'; clear H.
   constructor; try apply I; gs.
   - apply (DL_del str_eqb str_spec); [apply I|exact E].
   - intros i Hi. apply (in_keys_adel str_eqb str_spec); [apply I|]. split; [apply U; exact Hi|apply (i_rock g I); exact Hi].
   - intros x Hx. apply lremove_incl in Hx. apply I. exact Hx.
 Qed.
 
+(** the repaired variant refuses to delete a rock type in use: then no precondition is needed *)
+Theorem delete_rocktype_refusing_inv g n g' : delete_rocktype_refuses = true ->
+  Inv g -> delete_rocktype g n = Ok g' -> Inv g'.
+Proof.
+  intros F I H. apply (delete_rocktype_inv g n g' I); [|exact H].
+  unfold delete_rocktype in H. destruct (rget g n) as [j|] eqn:E.
+  - rewrite F in H. cbn [andb] in H. destruct (rock_unused g n) eqn:U; [|discriminate H].
+    unfold rock_unused in U. apply negb_true_iff in U. intros i Hi En.
+    assert (X : existsb (fun i => str_eqb (rn g (br g i)) n) (blist g) = true).
+    { apply existsb_exists. exists i. split; [exact Hi|]. apply str_eqb_eq. exact En. }
+    congruence.
+  - intros i Hi En. pose proof (i_rock g I i Hi) as K. rewrite En in K.
+    apply (in_keys_aget str_eqb str_spec) in K. destruct K as [v K]. unfold rget in E. congruence.
+Qed.
+
 Lemma delete_rocktype_frame g n g' : delete_rocktype g n = Ok g' ->
   blist g' = blist g /\ rn g' = rn g /\ br g' = br g.
 Proof.
   unfold delete_rocktype. destruct (rget g n) as [j|]; [|intro H; inversion H; auto].
-  destruct (mem j (rlist g)); [|discriminate]. intro H; inversion H; subst; gs. auto.
+  intro H. norefuse H. destruct (mem j (rlist g)); [|discriminate]. inversion H; subst; gs. auto.
 Qed.
 
 Lemma delete_rocktypes_inv ns : forall g g', Inv g -> (forall n, In n ns -> rock_not_used g n) ->
